@@ -44,7 +44,6 @@ theorem Inv5.step_s1 (I : Inv1 c s) (J : Inv2 c s) (Z : Inv5 c s) (h : StepCase 
   clear I J Z hwf hrole
   cases h
   all_goals (try z_close)
-  all_goals (trace_state; sorry)
 
 set_option maxHeartbeats 4000000 in
 theorem Inv5.step_s2 (I : Inv1 c s) (J : Inv2 c s) (Z : Inv5 c s) (h : StepCase c s t lb s') :
@@ -74,7 +73,6 @@ theorem Inv5.step_s2 (I : Inv1 c s) (J : Inv2 c s) (Z : Inv5 c s) (h : StepCase 
   clear I J Z hwf hrole
   cases h
   all_goals (try z_close)
-  all_goals (trace_state; sorry)
 
 set_option maxHeartbeats 4000000 in
 theorem Inv5.step_s3 (I : Inv1 c s) (J : Inv2 c s) (Z : Inv5 c s) (h : StepCase c s t lb s') :
@@ -104,7 +102,6 @@ theorem Inv5.step_s3 (I : Inv1 c s) (J : Inv2 c s) (Z : Inv5 c s) (h : StepCase 
   clear I J Z hwf hrole
   cases h
   all_goals (try z_close)
-  all_goals (trace_state; sorry)
 
 set_option maxHeartbeats 4000000 in
 theorem Inv5.step_s4 (I : Inv1 c s) (J : Inv2 c s) (Z : Inv5 c s) (h : StepCase c s t lb s') :
@@ -134,7 +131,6 @@ theorem Inv5.step_s4 (I : Inv1 c s) (J : Inv2 c s) (Z : Inv5 c s) (h : StepCase 
   clear I J Z hwf hrole
   cases h
   all_goals (try z_close)
-  all_goals (trace_state; sorry)
 
 end
 end Babylon.Exec
